@@ -1403,3 +1403,105 @@ def check_C06(tier, seed):
     return res.finish(gate)
 
 CHECKS['C06'] = check_C06
+
+# ---------------------------------------------------------------- C05
+def check_C05(tier, seed):
+    res = Result('C05', tier, seed); res.pending = []
+    gate = proof_gate('C05')
+    core.build_model(); core.build_impl()
+    rng = random.Random(seed)
+    items = []
+    def add(texts, exp, tag): items.append((texts, {'exp': exp, 'tag': tag}))
+    VALS = [1, 7, "'sym", '"str"', "'(1 2)", 'nil']
+    def pv(v): return str(v).lstrip("'")
+    for _ in range(tier_n(tier, 400, 10000)):
+        vx, vy = rng.choice(VALS), rng.choice(VALS)
+        binder = rng.choice(['let', 'let*', 'param', 'nested-let'])
+        body = rng.choice([
+            ('(list x y p gz)', lambda a, gz: '(%s %s %s %s)' % (pv(vx), pv(vy), a, gz)),
+            ('(list (car (list x)) (if t y) (cons p gz))', lambda a, gz: '(%s %s (%s . %s))' % (pv(vx), pv(vy), a, gz)),
+            ('`(,x (,y) ,p . ,gz)', lambda a, gz: '(%s (%s) %s . %s)' % (pv(vx), pv(vy), a, gz)),
+            ('(let ((w x)) (list w y p gz))', lambda a, gz: '(%s %s %s %s)' % (pv(vx), pv(vy), a, gz)),
+            ('(progn (list x y p gz))', lambda a, gz: '(%s %s %s %s)' % (pv(vx), pv(vy), a, gz)),
+            ('(funcall (lambda (q) (list x y q gz)) p)', lambda a, gz: '(%s %s %s %s)' % (pv(vx), pv(vy), a, gz)),
+            ('(cond (nil 0) (t (list x y p gz)))', lambda a, gz: '(%s %s %s %s)' % (pv(vx), pv(vy), a, gz)),
+        ])
+        lam = '(lambda (p) %s)' % body[0]
+        if binder == 'let': mk = '(setq f (let ((x %s) (y %s)) %s))' % (vx, vy, lam)
+        elif binder == 'let*': mk = '(setq f (let* ((x %s) (y %s)) %s))' % (vx, vy, lam)
+        elif binder == 'param': mk = '(defun mk (x y) %s) (setq f (mk %s %s))' % (lam, vx, vy)
+        else: mk = '(setq f (let ((x %s)) (let ((y %s)) %s)))' % (vx, vy, lam)
+        gz = rng.choice(['100', 'gg'])
+        pre = "(setq gz %s)" % ("'gg" if gz == 'gg' else gz)
+        ctxs = rng.sample([
+            ('(funcall f %s)', lambda: None), ("(progn (setq x 'other) (funcall f %s))", None), ("(let ((x 'shadow) (y 'shadow2)) (funcall f %s))", None),
+            ("(let ((y 0)) (let ((x 0)) (funcall f %s)))", None), ("(mapcar f (list %s))", 'map'), ("(progn (setq y 'glob-y) (funcall f %s))", None),
+            ("(let ((gz 'dyn)) (funcall f %s))", 'dyn'), ("(funcall (lambda (x y) (funcall f %s)) 'px 'py)", None)], rng.choice([1, 2, 3, 4]))
+        texts = [pre + ' ' + mk]
+        exps = [None]
+        for k, (ct, mode) in enumerate(ctxs):
+            arg = str(10 + k)
+            texts.append(ct % arg)
+            e = body[1](arg, 'dyn' if mode == 'dyn' else gz)
+            exps.append('(%s)' % e if mode == 'map' else e)
+        add(texts, exps, 'read-' + binder)
+    # private state persists between calls and is invisible outside
+    for _ in range(tier_n(tier, 150, 3000)):
+        k = rng.choice([1, 2, 3, 4]); start = rng.choice([0, 5, -2])
+        step = rng.choice([1, 2])
+        var = rng.choice(['c', 'x'])
+        mk = "(setq %s 'global) (setq ctr (let ((%s %d)) (lambda () (setq %s (+ %s %d)))))" % (var, var, start, var, var, step)
+        texts = [mk]; exps = [None]
+        for i in range(1, k + 1):
+            t = rng.choice(['(funcall ctr)', "(let ((%s 1000)) (funcall ctr))" % var, "(car (mapcar (lambda (ignored) (funcall ctr)) '(0)))"])
+            texts.append(t); exps.append(str(start + step * i))
+        texts.append(var); exps.append('global')
+        add(texts, exps, 'counter')
+    # two closures from one function do not share; own parameters and free variables resolve normally
+    fixed = [
+        (["(defun mk (x) (lambda () x))", "(setq f1 (mk 1))", "(setq f2 (mk 2))", "(list (funcall f1) (funcall f2) (funcall f1))"], [None, None, None, '(1 2 1)']),
+        (["(setq f (let ((p 9)) (lambda (p) p)))", "(funcall f 3)", "(let ((p 4)) (funcall f 5))"], [None, '3', '5']),
+        (["(setq f (lambda () gfree))", "(setq gfree 1)", "(funcall f)", "(let ((gfree 2)) (funcall f))", "(setq gfree 3)", "(funcall f)"], [None, None, '1', '2', None, '3']),
+        (["(setq f (let ((x 1)) (lambda () (lambda () x))))", "(setq g (funcall f))", "(let ((x 50)) (funcall g))"], [None, None, '1']),
+        (["(setq f (let ((x 1)) (lambda () (setq x (+ x 1)) (lambda () x))))", "(setq g1 (funcall f))", "(setq g2 (funcall f))", "(list (funcall g1) (funcall g2))"], [None, None, None, '(2 3)']),
+        (["(setq fs (let ((x 1)) (list (lambda () (setq x (+ x 10))) (lambda () x))))", "(funcall (car fs))", "(funcall (cadr fs))"], [None, '11', None]),
+        (["(setq f (let ((x 5)) (lambda (&optional o &rest r) (list x o r))))", "(funcall f)", "(funcall f 1 2 3)"], [None, '(5 nil nil)', '(5 1 (2 3))']),
+        (["(defun outer (x) (let ((y (* x 2))) (lambda (z) (list x y z))))", "(setq f (outer 4))", "(let ((x 0) (y 0) (z 0)) (funcall f 9))"], [None, None, '(4 8 9)']),
+        (["(setq f (let ((x 'cap)) (lambda () (list 'x x))))", "(funcall f)"], [None, '(x cap)']),
+        (["(setq f (let ((x 1)) (lambda () (let ((x (+ x 1))) x))))", "(funcall f)", "(funcall f)"], [None, '2', '2']),
+        (["(setq f (let ((x 1)) (lambda () (dotimes (x 3) x) x)))", "(funcall f)"], [None, '1']),
+        (["(setq x 'glob)", "(setq f (let ((x 1)) (lambda () (g-reads-x))))", "(defun g-reads-x () x)", "(funcall f)"], [None, None, None, 'glob']),
+    ]
+    for t, e in fixed: add(t, e, 'fixed')
+    cases = []
+    for i, (texts, meta) in enumerate(items):
+        c = Case('c%d' % i)
+        for t in texts: c.eval(t)
+        cases.append(c)
+    impl, model, dis = differential(res, cases)
+    nv = 0
+    distinct = set()
+    for c, (texts, meta) in zip(cases, items):
+        ls = impl.get(c.cid, [])
+        for k, (t, e) in enumerate(zip(texts, meta['exp'])):
+            if e is None or k >= len(ls): continue
+            _, kind, payload, _ = core.parse_line(ls[k])
+            got = unhx(payload) if kind == 'V' else kind
+            distinct.add((meta['tag'], t[:50], got[:30]))
+            if got != e:
+                nv += 1
+                if nv <= 8: res.violation('closure', {'history': texts, 'request': t, 'expected': e, 'got': got, 'class': meta['tag']})
+                break
+    # random programs with closures through the general generator
+    g_cases, stats = gen_histories(rng, tier_n(tier, 300, 8000), allow={'let', 'funcall', 'setq', '+', 'call', 'if', 'progn', 'seq-reduce', 'mapcar', 'list', 'cons', 'dolist', 'dotimes'})
+    differential(res, g_cases)
+    res.cov['distinct_nontrivial'] = len(distinct)
+    res.cov['rule'] = ('closure templates: captured variables bound by let / let* / nested let / function parameter; occurrences in calls, conditionals, backquote (incl. dotted tail), inner let, inner lambda; '
+                       '1-4 later calls in contexts where the same names are assigned, shadowed by let or by parameters, or dynamically rebound (free variable gz must follow the caller); counters whose state persists '
+                       'and stays invisible; sibling closures; nested closures; oracle: values computed from the template; plus random programs; correspondence with the model on every request')
+    res.cov['samples'] = [items[0][0], items[len(items) // 2][0]]
+    for d in res.pending:
+        res.violation('disagreement', d, no_input=not oracle_confirms(d))
+    return res.finish(gate)
+
+CHECKS['C05'] = check_C05
